@@ -164,10 +164,14 @@ ms_stop(struct Storage* s)
     ++STO[id].stops;
     return DeviceState_Armed;
 }
+/* zero-copy obligation: a packet is a window into the ring; the harness may check at every append that
+ * the sink still holds that window mapped (once it is unmapped the writer may reuse the memory) */
+static void (*mock_append_hook)(int sto, const struct VideoFrame* frames, size_t nbytes);
 static enum DeviceState
 ms_append(struct Storage* s, const struct VideoFrame* frames, size_t* nbytes)
 {
     int id = ((struct mock_sto*)s)->id;
+    if (mock_append_hook) mock_append_hook(id, frames, *nbytes);
     if (!STO[id].started) ++STO[id].viol; /* data outside start..stop */
     if (STO[id].failed) ++STO[id].appended_after_fail;
     if (STO[id].appends++ == STO[id].fail_append_at) {
